@@ -35,6 +35,19 @@ META = {
             'one byte per read.  After each read the deliveries to the handlers registered by send_msg / register_watchers must '
             'equal, in order and with exact (stream, opcode, flags, body), the frames whose last byte has arrived: nothing early, '
             'nothing missing, nothing twice, connection not defunct.  '
+            'MIXED VERSIONS: the header format (8-byte v1/v2, 9-byte v3/v4) and the version handed to the decoder belong to the '
+            'frame, not to the connection, so frames of a version other than the one the connection was opened with are fed too, '
+            'judged by the same oracle: (a) the ERROR "Invalid or unsupported protocol version" frame on stream 0 with which a node '
+            'answers, in its own version fv in 1..4, the OPTIONS request a new connection of version cv in 1..5 sent from its '
+            'constructor (what the protocol downgrade relies on): all splittings with <= 2 (thorough 3) cuts anywhere, <= 3 (4) cuts '
+            'near header start / header end / frame end, one byte per read; before the last byte nothing is delivered and the '
+            'connection is intact, with it the decoder and handler the driver registered for stream 0 get the frame once with its '
+            'exact body; (b) on a handshaken connection of version cv in 1..4 one frame of each kind in each other version fv: every '
+            'composition for streams <= 10 (thorough 17) bytes, the bounded-cuts family for the others; (c) two frames of versions '
+            '(f1, f2) in 1..4 x 1..4 not both cv, cv in {2, 4} (thorough 1..4), kinds {r0, r1, event} (thorough + void), both stream-id '
+            'orders, over <= 1 (thorough 2) cuts anywhere, <= 2 near a boundary, one byte per read; (d) reactor layer: one frame of each '
+            'kind and each other version on a cv in {2, 4} (thorough 1..4) connection through asyncio (greedy family, every B, three '
+            'arrival modes) and twisted (bounded cuts).  '
             'REACTOR LAYER: the 1-2 frame streams are also pushed through the read paths of the reactors importable here.  '
             '(a) asyncio: the real AsyncioConnection (its own handle_read coroutine, handshake and REGISTER included) on a virtual '
             'asyncio loop whose sock_recv(sock, n) is scripted and never returns more than n bytes; in_buffer_size is lowered to B.  '
@@ -58,7 +71,10 @@ META = {
             'code for asyncio and twisted (asyncore and libev cannot be imported on this interpreter; the gevent and eventlet '
             'greenlet loops are not run).  Trusted in the reactor layer: asyncio.BaseEventLoop with sock_recv/sock_sendall and the '
             'selector replaced (vt/c11lib.VLoop; ready handles run FIFO until none is left), twisted\'s transport replaced by a '
-            'direct call of protocol.dataReceived.  Header fields other than '
+            'direct call of protocol.dataReceived.  In the handshake-error family the (handler, decoder) pair the driver registered '
+            'for stream 0 is replaced by recorders that delegate to it.  A node answering in another version than the request\'s after '
+            'the handshake is not something Cassandra does; those streams stand for the statement\'s "all frame sequences (v1-v4 '
+            'headers)".  v5 framing is C06\'s.  Header fields other than '
             'length/stream/opcode/flags are not varied; bodies of responses are opaque (recording decoder) except RESULT void '
             'and EVENT which go through the driver decoder.',
     'design_ref': 'C05',
@@ -66,6 +82,40 @@ META = {
 
 FRAME_KINDS = ('r0', 'r1', 'r7', 'void', 'event')
 EVENT_ARGS = ('UP', '10.0.0.9', 9042)
+# A kind 'r1@2' is an r1 frame written with a protocol-v2 header whatever the version the connection was opened
+# with: the header format (and the version handed to the decoder) is a property of the frame, read from its
+# first byte.  A kind without '@' is written in the connection's version.
+ERR_TEXT = 'Invalid or unsupported protocol version: %d'
+
+
+def base(k):
+    return k.split('@')[0]
+
+
+def fver(version, k):
+    return int(k.split('@')[1]) if '@' in k else version
+
+
+def hsz(version, k):
+    return 8 if fver(version, k) < 3 else 9
+
+
+def is_mixed(version, kinds):
+    return any(fver(version, k) != version for k in kinds)
+
+
+def site_of(version, kinds):
+    """fingerprint suffix: header size of the connection's version; for a stream with a frame of another version
+    also the header size of the first such frame"""
+    s = 'h%d' % (8 if version < 3 else 9)
+    for k in kinds:
+        if fver(version, k) != version:
+            return 'frame-%s-on-%s-connection' % ('h%d' % hsz(version, k), s)
+    return s
+
+
+def nresponses(kinds):
+    return sum(1 for k in kinds if base(k) != 'event')
 
 
 def frame_seqs(maxlen):
@@ -83,12 +133,12 @@ def prepare(conn, version, kinds, rev, log, registered=None):
     -> stream bytes, expected deliveries, frame end offsets, stream ids"""
     from vt.world import wire
     from cassandra.protocol import OptionsMessage, ResultMessage
-    if 'event' in kinds:
+    if any(base(k) == 'event' for k in kinds):
         conn.register_watchers({'STATUS_CHANGE': lambda args: log.append(('event', args.get('change_type'),
                                                                            tuple(args.get('address') or ())))})
     if registered is not None:
         registered()
-    nresp = sum(1 for k in kinds if k != 'event')
+    nresp = nresponses(kinds)
     streams = []
     for i in range(nresp):
         with conn.lock:          # "This must be called while self.lock is held"
@@ -100,14 +150,15 @@ def prepare(conn, version, kinds, rev, log, registered=None):
     ends = []
     it = iter(order)
     cbs = {}
-    for idx, k in enumerate(kinds):
+    for idx, kv in enumerate(kinds):
+        k, fv = base(kv), fver(version, kv)
         if k == 'event':
-            data += wire.frame(version, -1, wire.OP_EVENT, wire.event_status(EVENT_ARGS[0], EVENT_ARGS[1], EVENT_ARGS[2]))
+            data += wire.frame(fv, -1, wire.OP_EVENT, wire.event_status(EVENT_ARGS[0], EVENT_ARGS[1], EVENT_ARGS[2]))
             expect.append(('event', EVENT_ARGS[0], (EVENT_ARGS[1], EVENT_ARGS[2])))
         elif k == 'void':
             s = next(it)
             cbs[s] = 'void'
-            data += wire.frame(version, s, wire.OP_RESULT, wire.result_void())
+            data += wire.frame(fv, s, wire.OP_RESULT, wire.result_void())
             expect.append(('void', s, s, 1))
         else:
             s = next(it)
@@ -115,9 +166,11 @@ def prepare(conn, version, kinds, rev, log, registered=None):
             n = int(k[1:])
             body = bytes((0x30 + 0x10 * idx + j) & 0xff for j in range(n))
             flags = 0x02 if n == 7 else 0     # an arbitrary header flag must come through unchanged
-            data += wire.frame(version, s, wire.OP_RESULT, body, flags=flags)
-            expect.append(('resp', s, version, s, flags, wire.OP_RESULT, body))
+            data += wire.frame(fv, s, wire.OP_RESULT, body, flags=flags)
+            expect.append(('resp', s, fv, s, flags, wire.OP_RESULT, body))
         ends.append(len(data))
+    if streams and not -128 <= min(streams) <= max(streams) <= 127 and any(fver(version, k) < 3 for k in kinds):
+        raise HarnessError('stream ids %r do not fit the one-byte stream field of a v1/v2 header' % (streams,))
     # now really send the requests (handlers registered by send_msg)
     for rid in streams:
         def cb(resp, rid=rid):
@@ -188,6 +241,7 @@ def verdict(conn, log, expect, ends, fed, closed_ok=False):
 
 def judge(version, kinds, rev, cuts, part):
     hs = 8 if version < 3 else 9
+    site = site_of(version, kinds)
     case = {'version': version, 'kinds': list(kinds), 'rev': rev, 'cuts': list(cuts)}
     try:
         w, conn, log, data, expect, ends = build(version, kinds, rev)
@@ -212,12 +266,105 @@ def judge(version, kinds, rev, cuts, part):
         if bad is None and conn._requests:
             bad = ('missing', 'handlers left registered at the end: %r' % sorted(conn._requests))
         if bad:
-            part.violation('C05/%s/h%d' % (bad[0], hs), '%s; case %r' % (bad[1], case), case)
+            part.violation('C05/%s/%s' % (bad[0], site), '%s; case %r' % (bad[1], case), case)
         part.count('evaluations')
         part.count('executions')
         part.count('feed_executions')
+        if site != 'h%d' % hs:
+            part.count('mixed_version_executions')
         part.count('reads', len(cuts) + 1)
         part.outcome((len(kinds), len(log), bool(conn.is_defunct)))
+        return bad
+    finally:
+        w.__exit__()
+
+
+def build_hserr(cv, fv):
+    """A connection opened with protocol version cv whose OPTIONS request (sent by the driver itself from the
+    constructor, stream 0) is outstanding, and the ERROR frame a node that does not speak cv answers with, written
+    in the node's own version fv.  The handler / decoder pair the driver registered for stream 0 is wrapped by
+    recorders that delegate to it.  -> world, conn, log, frame bytes, expected log"""
+    from vt.world.vworld import World, VServer, VConnection
+    from vt.world import wire
+    srv = VServer()
+    srv.hold = lambda c, r: True
+    w = World(srv)
+    w.__enter__()
+    try:
+        conn = VConnection(srv.hosts[0].address, protocol_version=cv)
+        seen = [(p.stream, p.req['op'], p.req['version']) for p in srv.pending]
+        if seen != [(0, 'OPTIONS', cv)] or sorted(conn._requests) != [0] or conn.is_defunct or conn.is_closed:
+            raise HarnessError('setup: a new v%d connection should have OPTIONS outstanding on stream 0: node holds %r, '
+                               'handlers %r, last_error %r' % (cv, seen, sorted(conn._requests), conn.last_error))
+        log = []
+        cb, dec, md = conn._requests[0]
+
+        def rec_dec(pv, utm, sid, flags, op, body, decomp, rmd):
+            log.append(('frame', pv, sid, flags, op, bytes(body)))
+            return dec(pv, utm, sid, flags, op, body, decomp, rmd)
+
+        def rec_cb(resp):
+            log.append(('handler', type(resp).__name__, getattr(resp, 'code', None), getattr(resp, 'message', None)))
+            return cb(resp)
+        conn._requests[0] = (rec_cb, rec_dec, md)
+        text = ERR_TEXT % cv
+        body = wire.error(wire.ERR_PROTOCOL, text)
+        data = wire.frame(fv, 0, wire.OP_ERROR, body)
+        expect = [('frame', fv, 0, 0, wire.OP_ERROR, body), ('handler', 'ProtocolException', wire.ERR_PROTOCOL, text)]
+        return w, conn, log, data, expect
+    except BaseException:
+        w.__exit__()
+        raise
+
+
+def hserr_len(cv, fv):
+    return (8 if fv < 3 else 9) + 4 + 2 + len(ERR_TEXT % cv)
+
+
+def judge_hserr(cv, fv, cuts, part):
+    """The ERROR frame on stream 0 that answers the very first request of a connection, in the answering node's frame
+    format, under one splitting.  Until its last byte has arrived nothing is delivered and the connection is intact;
+    with its last byte the frame is given exactly once, with its exact body, to the handler of stream 0."""
+    site = 'handshake-error/h%d-frame-on-h%d-connection' % (8 if fv < 3 else 9, 8 if cv < 3 else 9)
+    case = {'layer': 'handshake-error', 'conn_version': cv, 'frame_version': fv, 'cuts': list(cuts)}
+    w, conn, log, data, expect = build_hserr(cv, fv)
+    try:
+        fed = 0
+        bad = None
+        for ch in connlib.chunks(data, cuts):
+            try:
+                connlib.guarded_feed(conn, ch)
+            except connlib.Livelock as e:
+                bad = ('livelock', 'after %d bytes had been handed over, the next read of %d bytes never returned: %s' % (fed, len(ch), e))
+                break
+            fed += len(ch)
+            if fed < len(data):
+                if conn.is_defunct or conn.is_closed:
+                    bad = ('defunct', 'connection failed after %d of %d bytes: %r' % (fed, len(data), conn.last_error))
+                elif log:
+                    bad = ('partial', 'after %d of %d bytes: %r' % (fed, len(data), log))
+                elif sorted(conn._requests) != [0]:
+                    bad = ('partial', 'after %d of %d bytes the handler of stream 0 is gone: %r' % (fed, len(data), sorted(conn._requests)))
+            elif not log:
+                bad = ('missing', 'the complete %d-byte v%d ERROR frame on stream 0 was not delivered (defunct=%r, last_error=%r, '
+                       'handlers %r)' % (len(data), fv, conn.is_defunct, conn.last_error, sorted(conn._requests)))
+            elif log != expect:
+                clause = 'twice' if log[:2] == expect else ('body' if log[0] != expect[0] else 'missing')
+                bad = (clause, 'deliveries %r, expected %r' % (log, expect))
+            elif conn._requests:
+                bad = ('missing', 'handlers left registered at the end: %r' % sorted(conn._requests))
+            if bad:
+                break
+        if bad:
+            part.violation('C05/%s/%s' % (bad[0], site), '%s; case %r' % (bad[1], case), case)
+        part.count('evaluations')
+        part.count('executions')
+        part.count('feed_executions')
+        part.count('handshake_error_executions')
+        if cv != fv:
+            part.count('mixed_version_executions')
+        part.count('reads', len(cuts) + 1)
+        part.outcome(('handshake-error', len(log), bool(conn.is_defunct)))
         return bad
     finally:
         w.__exit__()
@@ -234,7 +381,7 @@ def judge_reactor(case, part):
     vworld.install_seams()      # idempotent; without it register_watchers would block on a real threading.Event
     reactor, version, B = case['reactor'], case['version'], case['B']
     kinds, rev, cuts, mode, eof = tuple(case['kinds']), case['rev'], tuple(case['cuts']), case['mode'], bool(case['eof'])
-    site = reactor
+    site = reactor if not is_mixed(version, kinds) else '%s/%s' % (reactor, site_of(version, kinds))
     part.count('evaluations')
     try:
         link = c05lib.LINKS[reactor](version, B)
@@ -297,6 +444,9 @@ def judge_reactor(case, part):
         part.count('executions')
         part.count('reactor_executions')
         part.count('%s_executions' % reactor)
+        if site != reactor:
+            part.count('mixed_version_executions')
+            part.count('mixed_version_reactor_executions')
         part.count('reads', len(sizes))
         part.count('%s_reads' % reactor, len(sizes))
         if B is not None:
@@ -313,26 +463,23 @@ BODY = {'r0': 0, 'r1': 1, 'r7': 7, 'void': 4, 'event': 28}
 
 
 def stream_len(version, kinds):
-    hs = 8 if version < 3 else 9
-    return sum(hs + BODY[k] for k in kinds)
+    return sum(hsz(version, k) + BODY[base(k)] for k in kinds)
 
 
 def inside_frame(version, kinds, cuts):
-    hs = 8 if version < 3 else 9
     ends, n = set(), 0
     for k in kinds:
-        n += hs + BODY[k]
+        n += hsz(version, k) + BODY[base(k)]
         ends.add(n)
     return any(c not in ends for c in cuts)
 
 
 def boundaries(version, kinds):
     """offsets of header starts, header ends and frame ends"""
-    hs = 8 if version < 3 else 9
     out, n = [], 0
     for k in kinds:
-        out += [n, n + hs]
-        n += hs + BODY[k]
+        out += [n, n + hsz(version, k)]
+        n += hsz(version, k) + BODY[base(k)]
         out.append(n)
     return out
 
@@ -360,6 +507,8 @@ def run_item(item):
     connlib.quiet_driver_logs()
     if item[0] == 'reactor':
         return run_reactor_item(item)
+    if item[0] == 'hserr':
+        return run_hserr_item(item)
     version, kinds, rev, mode, anywhere, nearb, k, n = item
     part = Part()
     L = stream_len(version, kinds)
@@ -378,6 +527,29 @@ def run_item(item):
     part.count('distinct_nontrivial', nt)
     if k == 0:
         part.sample({'version': version, 'kinds': list(kinds), 'rev': rev, 'mode': mode, 'stream_bytes': L}, limit=1)
+    return part
+
+
+def hserr_splittings(cv, fv, anywhere, nearb):
+    L = hserr_len(cv, fv)
+    return _cut_splittings(L, (0, 8 if fv < 3 else 9, L), anywhere, nearb)
+
+
+def run_hserr_item(item):
+    _, cv, fv, anywhere, nearb, k, n = item
+    part = Part()
+    L = hserr_len(cv, fv)
+    nt = 0
+    for cuts in hserr_splittings(cv, fv, anywhere, nearb)[0][k::n]:
+        if connlib.too_many_livelocks():
+            part.cap('stopped early: several reads never returned in this worker (reported as C05/livelock)')
+            break
+        judge_hserr(cv, fv, cuts, part)
+        if cuts:
+            nt += 1
+    part.count('distinct_nontrivial', nt)
+    if k == 0 and (cv, fv) in ((4, 2), (2, 4)):
+        part.sample({'layer': 'handshake-error', 'conn_version': cv, 'frame_version': fv, 'stream_bytes': L}, limit=1)
     return part
 
 
@@ -464,7 +636,7 @@ def reactor_plan(ctx):
         for kinds in seqs2:
             if ctx.quick and version not in versions and len(kinds) > 1:
                 continue
-            nresp = sum(1 for k in kinds if k != 'event')
+            nresp = nresponses(kinds)
             L = stream_len(version, kinds)
             for rev in ((False, True) if nresp >= 2 else (False,)):
                 n_grid += add('asyncio', version, kinds, rev, 'grid', tuple(range(1, L + 2)), shorts, (EACH, BURST, BURST_EOF))
@@ -502,6 +674,22 @@ def reactor_plan(ctx):
                    '(waiting reader) and B=8 (both arrival modes)' if ctx.quick else
                    'v1-v4 r0, r1, void for every B in 1..length+1, r7 for B in {4, header size, L}, two empty frames for B in '
                    '{4, header size}, v2 r0+r1 / r1+r0 for B in {4, first frame length}'))
+    # ---- both reactors: one frame written in another version than the connection's (header format read from the frame)
+    n_mgrid = n_mcuts = 0
+    mixed_conn = (2, 4) if ctx.quick else (1, 2, 3, 4)
+    for cv in mixed_conn:
+        for fv in (1, 2, 3, 4):
+            if fv == cv:
+                continue
+            for b in FRAME_KINDS:
+                kinds = ('%s@%d' % (b, fv),)
+                L = stream_len(cv, kinds)
+                n_mgrid += add('asyncio', cv, kinds, False, 'grid', tuple(range(1, L + 2)), shorts, (EACH, BURST, BURST_EOF))
+                if c05lib.tr is not None:
+                    n_mcuts += add('twisted', cv, kinds, False, 'cuts', (None,), (1, 2) if ctx.quick else (2, 3), (EACH,))
+    told.append('mixed versions: one frame of version fv != cv (each kind) on a connection of version cv in %s: %d asyncio executions of '
+                'the greedy family (every B, three arrival modes as above), %d twisted executions over the bounded-cuts family'
+                % (list(mixed_conn), n_mgrid, n_mcuts))
     # ---- twisted: the protocol's dataReceived on the virtual reactor (no read size limit of the driver's own)
     n_tfull = n_tcuts = 0
     if c05lib.tr is None:
@@ -510,7 +698,7 @@ def reactor_plan(ctx):
         tfull_upto = 16 if ctx.quick else 17
         for version in (1, 2, 3, 4):
             for kinds in seqs2:
-                nresp = sum(1 for k in kinds if k != 'event')
+                nresp = nresponses(kinds)
                 L = stream_len(version, kinds)
                 for rev in ((False, True) if nresp >= 2 else (False,)):
                     if version in (2, 4) and not rev and L <= tfull_upto:
@@ -522,6 +710,62 @@ def reactor_plan(ctx):
                     'bytes, %d executions of the other 1-2 frame streams of v1-v4 (both orders) over {<= %d cuts anywhere} U {<= %d '
                     'cuts each within +-2 bytes of a header start / header end / frame end} U {one byte per read}, judged after '
                     'every read' % (n_tfull, tfull_upto, n_tcuts, 1 if ctx.quick else 2, 2 if ctx.quick else 3))
+    return items, told
+
+
+def mixed_plan(ctx):
+    """Work items of the mixed-version families of the feed layer: frames whose version byte (and so header format) is
+    not that of the connection.  -> [(estimated executions, item)], sentence for the coverage rule"""
+    items = []
+    n_hs = n_one = n_two = 0
+    # (a) the ERROR frame answering the first request of a new connection, in the node's own frame format
+    hs_cuts = (2, 3) if ctx.quick else (3, 4)
+    hs_conn = (1, 2, 3, 4, 5)
+    for cv in hs_conn:
+        for fv in (1, 2, 3, 4):
+            total = hserr_splittings(cv, fv, *hs_cuts)[1]
+            n = max(1, total // PER_ITEM)
+            n_hs += total
+            items += [(total // n, ('hserr', cv, fv, hs_cuts[0], hs_cuts[1], k, n)) for k in range(n)]
+    # (b) established connection of version cv, one frame of another version
+    full_upto = 10 if ctx.quick else 17
+    one_cuts = (2, 3) if ctx.quick else (3, 4)
+    for cv in (1, 2, 3, 4):
+        for fv in (1, 2, 3, 4):
+            if fv == cv:
+                continue
+            for b in FRAME_KINDS:
+                kinds = ('%s@%d' % (b, fv),)
+                mode, (anywhere, nearb) = ('full', (0, 0)) if stream_len(cv, kinds) <= full_upto else ('cuts', one_cuts)
+                total = splittings(cv, kinds, mode, anywhere, nearb)[1]
+                n = max(1, total // PER_ITEM)
+                n_one += total
+                items += [(total // n, (cv, kinds, False, mode, anywhere, nearb, k, n)) for k in range(n)]
+    # (c) two frames, at least one of them of another version than the connection's
+    two_conn = (2, 4) if ctx.quick else (1, 2, 3, 4)
+    two_bases = ('r0', 'r1', 'event') if ctx.quick else ('r0', 'r1', 'void', 'event')
+    two_cuts = (1, 2) if ctx.quick else (2, 2)
+    for cv in two_conn:
+        for f1, f2 in itertools.product((1, 2, 3, 4), repeat=2):
+            if f1 == cv and f2 == cv:
+                continue
+            for b1, b2 in itertools.product(two_bases, repeat=2):
+                kinds = ('%s@%d' % (b1, f1), '%s@%d' % (b2, f2))
+                for rev in ((False, True) if nresponses(kinds) >= 2 else (False,)):
+                    total = splittings(cv, kinds, 'cuts', two_cuts[0], two_cuts[1])[1]
+                    n = max(1, total // PER_ITEM)
+                    n_two += total
+                    items += [(total // n, (cv, kinds, rev, 'cuts', two_cuts[0], two_cuts[1], k, n)) for k in range(n)]
+    told = ('MIXED VERSIONS (feed layer; the header format is read from the frame, not taken from the connection): %d executions of the '
+            'ERROR "%s" frame on stream 0 that a node not speaking the connection\'s version answers to the OPTIONS request the driver '
+            'itself sent from the constructor, connection versions %s x frame versions 1-4 (equal ones included), over {<= %d cuts '
+            'anywhere} U {<= %d cuts within +-2 bytes of header start / header end / frame end} U {one byte per read}; %d executions '
+            'of one frame of version fv on a handshaken connection of version cv, all 12 (cv, fv) in 1..4 with fv != cv x %s: ALL '
+            'compositions for streams <= %d bytes, the others over {<= %d cuts anywhere} U {<= %d near a boundary} U {one byte per '
+            'read}; %d executions of two frames of versions (f1, f2) in 1..4 x 1..4 not both equal to the connection version cv in '
+            '%s, kinds %s x %s, both stream-id orders, over {<= %d cuts anywhere} U {<= %d near a boundary} U {one byte per read}'
+            % (n_hs, ERR_TEXT % 0 + ' (the connection version)', list(hs_conn), hs_cuts[0], hs_cuts[1], n_one, list(FRAME_KINDS),
+               full_upto, one_cuts[0], one_cuts[1], n_two, list(two_conn), list(two_bases), list(two_bases), two_cuts[0], two_cuts[1]))
     return items, told
 
 
@@ -537,7 +781,7 @@ def run(ctx):
     nfull = ncut = 0
     for version in (1, 2, 3, 4):
         for kinds in frame_seqs(maxframes):
-            nresp = sum(1 for k in kinds if k != 'event')
+            nresp = nresponses(kinds)
             L = stream_len(version, kinds)
             for rev in ((False, True) if nresp >= 2 else (False,)):
                 # quick: complete compositions for one version per header size, natural order, up to 17 bytes
@@ -558,19 +802,20 @@ def run(ctx):
                 for k in range(n):
                     items.append((total // n, (version, kinds, rev, mode, anywhere, nearb, k, n)))
     ritems, told = reactor_plan(ctx)
+    mitems, mtold = mixed_plan(ctx)
     # a reactor execution costs about as much as a feed execution; small items are grouped by the pool's chunking
-    items = [it for _, it in sorted(ctx.rotate(items + ritems), key=lambda x: -x[0])]
+    items = [it for _, it in sorted(ctx.rotate(items + ritems + mitems), key=lambda x: -x[0])]
     for part in ctx.pmap(run_item, items):
         ctx.merge(part)
     ctx.cov['rule'] = ('FEED LAYER: versions 1-4 x frame sequences of length 1..%d over %s x stream-id order (natural / reversed); %d streams '
                        '(<= %d bytes%s) enumerated over ALL compositions, %d streams over {all splittings with <= %s cuts anywhere} '
                        'U {all splittings with <= %s cuts each within +-2 bytes of a header start / header end / frame end} U '
-                       '{one byte per read}.  REACTOR LAYER: %s.  non-trivial = an execution whose read script has at least one '
+                       '{one byte per read}.  %s.  REACTOR LAYER: %s.  non-trivial = an execution whose read script has at least one '
                        'read boundary strictly inside a frame'
                        % (maxframes, list(FRAME_KINDS), nfull, full_upto,
                           '' if ctx.thorough else ' (17 for 8-byte headers), versions 2 and 4 (one per header size), natural order',
                           ncut, '2' if ctx.quick else '3 (2 for 3-frame streams)', '3' if ctx.quick else '4 (3 for 3-frame streams)',
-                          '; '.join(told)))
+                          mtold, '; '.join(told)))
     ctx.cov['exhaustive'] = True
     ctx.assume('feed layer: a reactor hands received bytes to the connection by _iobuf.write(chunk); process_io_buffer() '
                '(VConnection.feed); the reactor layer runs the asyncio and twisted reactors\' own code for this instead')
@@ -603,6 +848,8 @@ def replay(ctx, data):
     part = Part()
     if data.get('layer') == 'reactor':
         bad = judge_reactor(data, part)
+    elif data.get('layer') == 'handshake-error':
+        bad = judge_hserr(data['conn_version'], data['frame_version'], tuple(data['cuts']), part)
     else:
         bad = judge(data['version'], tuple(data['kinds']), data['rev'], tuple(data['cuts']), part)
     for fp, what, _ in part.violations:
